@@ -52,7 +52,9 @@ func (f *Formatter) Format(content string) (string, error) {
 	// Check if this looks like a full document (starts with <!DOCTYPE or <html)
 	trimmedBody := trimHTMLSpace(body)
 	// (a closing </html> anywhere is what the template engine itself goes by)
-	isFullDocument := hasDoctypePrefix(trimmedBody) || startsWithHTMLTag(trimmedBody) || strings.Contains(trimmedBody, "</html>")
+	// (tag names in any letter case: <HTML> ... </HTML>)
+	lowerBody := strings.ToLower(trimmedBody)
+	isFullDocument := hasDoctypePrefix(trimmedBody) || startsWithHTMLTag(lowerBody) || strings.Contains(lowerBody, "</html>")
 
 	if isFullDocument {
 		return f.formatFullDocument(frontmatter, body)
@@ -154,12 +156,20 @@ func fragmentContext(body string) *html.Node {
 	}
 
 	lower := strings.ToLower(trimmed)
+	// comments before the first tag do not change what the fragment is a part of
+	for strings.HasPrefix(lower, "<!--") {
+		end := strings.Index(lower, "-->")
+		if end < 0 {
+			break
+		}
+		lower = strings.TrimLeft(lower[end+3:], " \t\n\r\f")
+	}
 	for _, m := range mappings {
 		if strings.HasPrefix(lower, m.prefix) {
 			// Ensure the prefix is followed by a space, >, or end-of-string
 			// to avoid false matches (e.g., "<the" matching "<th").
 			rest := lower[len(m.prefix):]
-			if len(rest) == 0 || rest[0] == ' ' || rest[0] == '>' || rest[0] == '\n' || rest[0] == '\t' || rest[0] == '/' {
+			if len(rest) == 0 || rest[0] == ' ' || rest[0] == '>' || rest[0] == '\n' || rest[0] == '\t' || rest[0] == '\r' || rest[0] == '\f' || rest[0] == '/' {
 				return &html.Node{Type: html.ElementNode, DataAtom: m.dataAtom, Data: m.data}
 			}
 		}
@@ -277,7 +287,7 @@ func (f *Formatter) formatNode(n *html.Node, buf *strings.Builder, depth int) {
 		buf.WriteString(openTag)
 
 		// Void elements (self-closing)
-		if isVoidElement(n.DataAtom) {
+		if isVoid(n) {
 			buf.WriteString("\n")
 			return
 		}
@@ -407,7 +417,11 @@ func (f *Formatter) renderPreContent(n *html.Node, buf *strings.Builder) {
 			buf.WriteString(escapeText(c.Data))
 		case html.ElementNode:
 			buf.WriteString(f.renderOpenTag(c))
-			if !isVoidElement(c.DataAtom) {
+			if (c.Data == "textarea" || c.Data == "pre") && c.Namespace == "" && c.FirstChild != nil && c.FirstChild.Type == html.TextNode && strings.HasPrefix(c.FirstChild.Data, "\n") {
+				// the parser drops one newline after these start tags: a content that starts with one needs it twice
+				buf.WriteString("\n")
+			}
+			if !isVoid(c) {
 				f.renderPreContent(c, buf)
 				buf.WriteString(f.renderCloseTag(c))
 			}
@@ -463,7 +477,7 @@ func (f *Formatter) allChildrenAreInline(n *html.Node) bool {
 		case html.CommentNode:
 			// comments are inline-compatible
 		case html.ElementNode:
-			if isVoidElement(c.DataAtom) {
+			if isVoid(c) {
 				continue
 			}
 			if !isInlineAtom(c.DataAtom) {
@@ -512,7 +526,7 @@ func (f *Formatter) renderInlineChildren(n *html.Node) string {
 			b.WriteString("-->")
 		case html.ElementNode:
 			b.WriteString(f.renderOpenTag(c))
-			if !isVoidElement(c.DataAtom) {
+			if !isVoid(c) {
 				b.WriteString(f.renderInlineChildren(c))
 				b.WriteString(f.renderCloseTag(c))
 			}
@@ -707,6 +721,12 @@ func escapeAttr(s string) string {
 // renderCloseTag renders a closing tag.
 func (f *Formatter) renderCloseTag(n *html.Node) string {
 	return "</" + n.Data + ">"
+}
+
+// isVoid reports whether n is one of HTML's void elements. Inside <svg> or <math> the same
+// names (link, source, param ...) are ordinary elements with content and an end tag.
+func isVoid(n *html.Node) bool {
+	return n.Namespace == "" && isVoidElement(n.DataAtom)
 }
 
 // isVoidElement checks if an element is void (self-closing).
